@@ -60,6 +60,8 @@ def bump_ctx_all(code: str, payload: str) -> list[str]:
     b = bump_ctx(code, payload)
     if b:
         out.append(b)
+    if code in ("0418", "3220") and len(payload) >= 6 and payload[4:6] != "00":
+        out.append(payload[:4] + "00" + payload[6:])  # index 00 has a special meaning for 0418 (null entry)
     if code == "0404" and payload[2:4] == "23":
         pass  # the hot-water schedule: the library's context is 'HW' whatever the first byte (one DHW zone, by design)
     elif code in ("0005", "000C", "0404") and len(payload) >= 4:
